@@ -14,6 +14,8 @@ RULE = ("complete sessions (HLS-GMAC ciphered for suites 0/1/2 with valid and in
 ASSUMPTIONS = ["observable state = protocol state, client and meter invocation counters, meter system title, authentication "
                "mechanism, meter challenge, negotiated conformance and maximum PDU size (and the receive buffer, implementation only)"]
 impl = cc.impl
+# authentic inputs (refused only because of the state): their counter may be consumed
+AUTHENTIC = ("authentic_wrong_state", "exception_counter_error_high", "exception_counter_error_low")
 
 
 def sessions(ctx):
@@ -59,7 +61,7 @@ def run(ctx):
         ctx.tried("refusal_leaves_no_trace", key=f"{name}:{j}:{kind}")
         case = {"session": name, "position": j, "kind": kind, "script": lib.v_text(s)[:6000]}
         cmp_after, cmp_before = list(after), list(before)
-        if kind == "authentic_wrong_state":
+        if kind in AUTHENTIC:
             cmp_after[2] = cmp_before[2] = None          # the counter of an authentic APDU may be consumed
         if cmp_after != cmp_before or buf != 0:
             ctx.fail("connection_changed_by_refused_input", case, lib.v_text(before)[:300], lib.v_text(after)[:300] + f" buffer={buf}")
@@ -67,7 +69,7 @@ def run(ctx):
         # the genuine continuation behaves as if the refused input had never arrived
         cont = [[x[0], x[1]] for x in rows[j + 1:]]
         want = [[x[0], x[1]] for x in base[j:]]
-        if kind == "authentic_wrong_state":
+        if kind in AUTHENTIC:
             for x in cont + want:
                 x[1] = x[1][:2] + [None] + x[1][3:]
         if cont != want:
@@ -87,13 +89,13 @@ def replay(ctx, rp):
     if not isinstance(rows[j][0], E):
         return False
     a, b = list(rows[j][1]), list(before)
-    if c["kind"] == "authentic_wrong_state":
+    if c["kind"] in AUTHENTIC:
         a[2] = b[2] = None
     if a != b or rows[j][2] != 0:
         return True
     cont = [[x[0], x[1]] for x in rows[j + 1:]]
     want = [[x[0], x[1]] for x in base[j:]]
-    if c["kind"] == "authentic_wrong_state":
+    if c["kind"] in AUTHENTIC:
         for x in cont + want:
             x[1] = x[1][:2] + [None] + x[1][3:]
     return cont != want
